@@ -24,6 +24,17 @@ type Assignment struct {
 	Faults  []string          `json:"faults,omitempty"`
 	Crashes []string          `json:"crashes,omitempty"`
 	Tag     string            `json:"tag,omitempty"`
+	// schedule steering (C04/C15): the order in which the tasks first ran and the operations at
+	// which a task was pre-empted in the executor's counterexample
+	TaskOrder []int        `json:"task_order,omitempty"`
+	Steer     []SteerPoint `json:"steer,omitempty"`
+}
+
+// SteerPoint: the N-th visible operation of kind What in task Task is where the task is held back.
+type SteerPoint struct {
+	Task int    `json:"task"`
+	N    int    `json:"n"`
+	What string `json:"what"`
 }
 
 type state struct {
@@ -38,6 +49,11 @@ type state struct {
 	faultCnt  map[string]int
 	crashCnt  map[string]int
 	crashCh   chan struct{}
+	// steering
+	pending  []func()
+	taskOf   map[int64]int
+	parentOf map[int64]int64
+	opCnt    map[string]int
 }
 
 var cur *state
@@ -213,6 +229,11 @@ func Try(f func()) (panicked bool, msg string) {
 }
 
 func Spawn(f func()) {
+	if steering() {
+		// tasks are started by Join, in the order of the executor's counterexample
+		cur.pending = append(cur.pending, f)
+		return
+	}
 	cur.wg.Add(1)
 	go func() {
 		defer cur.wg.Done()
@@ -220,7 +241,153 @@ func Spawn(f func()) {
 	}()
 }
 
-func Join() { cur.wg.Wait() }
+func Join() {
+	if !steering() || len(cur.pending) == 0 {
+		cur.wg.Wait()
+		return
+	}
+	st := cur
+	order := append([]int(nil), st.a.TaskOrder...)
+	seen := map[int]bool{}
+	for _, t := range order {
+		seen[t] = true
+	}
+	for t := 1; t <= len(st.pending); t++ {
+		if !seen[t] {
+			order = append(order, t)
+		}
+	}
+	for _, t := range order {
+		if t < 1 || t > len(st.pending) {
+			continue
+		}
+		task, f := t, st.pending[t-1]
+		st.wg.Add(1)
+		go func() {
+			defer st.wg.Done()
+			st.mu.Lock()
+			st.taskOf[goid()] = task
+			st.mu.Unlock()
+			f()
+		}()
+		time.Sleep(steerStagger)
+	}
+	st.pending = nil
+	done := make(chan struct{})
+	go func() { st.wg.Wait(); close(done) }()
+	select {
+	case <-done:
+	case <-time.After(steerWatchdog + time.Duration(len(st.a.Steer)+1)*steerHold):
+		panic("deadlock: the requests did not all complete (native watchdog)")
+	}
+}
+
+const (
+	steerStagger  = 120 * time.Millisecond
+	steerHold     = 600 * time.Millisecond
+	steerWatchdog = 8 * time.Second
+)
+
+func steering() bool { return cur != nil && (len(cur.a.Steer) > 0 || len(cur.a.TaskOrder) > 0) }
+
+func goid() int64 {
+	var buf [64]byte
+	n := runtime.Stack(buf[:], false)
+	// "goroutine 123 [running]:"
+	f := strings.Fields(string(buf[:n]))
+	if len(f) < 2 {
+		return -1
+	}
+	id, _ := strconv.ParseInt(f[1], 10, 64)
+	return id
+}
+
+// creators maps every live goroutine to the goroutine that created it ("created by ... in goroutine N").
+func creators() map[int64]int64 {
+	buf := make([]byte, 1<<20)
+	n := runtime.Stack(buf, true)
+	out := map[int64]int64{}
+	for _, blk := range strings.Split(string(buf[:n]), "\n\n") {
+		f := strings.Fields(blk)
+		if len(f) < 2 || f[0] != "goroutine" {
+			continue
+		}
+		id, err := strconv.ParseInt(f[1], 10, 64)
+		if err != nil {
+			continue
+		}
+		if k := strings.LastIndex(blk, " in goroutine "); k >= 0 {
+			rest := strings.Fields(blk[k+len(" in goroutine "):])
+			if len(rest) > 0 {
+				if pid, err := strconv.ParseInt(rest[0], 10, 64); err == nil {
+					out[id] = pid
+				}
+			}
+		}
+	}
+	return out
+}
+
+// taskOfCurrent: the task (1-based Spawn order) the calling goroutine belongs to, following the
+// chain of creating goroutines; 0 if it does not descend from a task.
+func taskOfCurrent() int {
+	st := cur
+	g := goid()
+	st.mu.Lock()
+	if t, ok := st.taskOf[g]; ok {
+		st.mu.Unlock()
+		return t
+	}
+	st.mu.Unlock()
+	cr := creators()
+	st.mu.Lock()
+	defer st.mu.Unlock()
+	for k, v := range cr {
+		st.parentOf[k] = v
+	}
+	x := g
+	for depth := 0; depth < 16; depth++ {
+		if t, ok := st.taskOf[x]; ok {
+			st.taskOf[g] = t
+			return t
+		}
+		p, ok := st.parentOf[x]
+		if !ok {
+			break
+		}
+		x = p
+	}
+	st.taskOf[g] = 0
+	return 0
+}
+
+// Yield is called by the instrumented wrappers (zzverif/vsync, zzverif/fbadger) before a visible
+// operation; when the executor's counterexample pre-empted this task at this operation the task is
+// held back long enough for the others to run.
+func Yield(what string) {
+	if !steering() {
+		return
+	}
+	t := taskOfCurrent()
+	if t == 0 {
+		return
+	}
+	st := cur
+	st.mu.Lock()
+	key := fmt.Sprintf("%d|%s", t, what)
+	n := st.opCnt[key]
+	st.opCnt[key] = n + 1
+	hold := false
+	for _, sp := range st.a.Steer {
+		if sp.Task == t && sp.What == what && sp.N == n {
+			hold = true
+		}
+	}
+	st.mu.Unlock()
+	if hold {
+		time.Sleep(steerHold)
+	}
+}
 
 func Fault(site string) bool {
 	cur.mu.Lock()
@@ -259,7 +426,8 @@ func RunReplay(t *testing.T, harnesses map[string]func()) {
 			fmt.Printf("VSYM-BEGIN %d\nVSYM-ERROR unknown harness %s\nVSYM-END %d\n", k, a.Harness, k)
 			continue
 		}
-		cur = &state{a: a, nameCnt: map[string]int{}, chooseCnt: map[string]int{}, dirs: map[string]string{}, faultCnt: map[string]int{}, crashCnt: map[string]int{}}
+		cur = &state{a: a, nameCnt: map[string]int{}, chooseCnt: map[string]int{}, dirs: map[string]string{}, faultCnt: map[string]int{}, crashCnt: map[string]int{},
+			taskOf: map[int64]int{}, parentOf: map[int64]int64{}, opCnt: map[string]int{}}
 		fmt.Printf("VSYM-BEGIN %d\n", k)
 		func() {
 			defer func() {
